@@ -121,6 +121,9 @@ Print Assumptions C17_detection.
 Theorem C17_fast : forall pats ptes strs d, dump_fast pats ptes strs d = parse_dump_with pats ptes strs d.
 Proof. exact dump_fast_eq. Qed.
 Print Assumptions C17_fast.
+Theorem C17_file_fast : forall ptes strs lines, dump_file_fast ptes strs lines = parse_dump_file ptes strs lines.
+Proof. exact dump_file_fast_eq. Qed.
+Print Assumptions C17_file_fast.
 
 (* non-vacuity: one ILOG entry followed by the bare name "FANS" (ILOG data), a complete FANS buffer with one
    entry, a 10-byte IICS region, and a second FANS header that is data of the IICS region; the same through
